@@ -296,3 +296,11 @@ contract("ExpandingBloomFilter.__load@path", contexts=_XALL, properties=["C05", 
          requires=[("path_is_text", "isinstance(file, str)"), ("file_is_there", "file_exists(resolve(file))")]
          + [(n, _XP(t)) for n, t in _xl.requires],
          modifies=list(_xl.modifies), rebinds=["self._blooms"], ensures=[(n, _XP(t)) for n, t in _xl.ensures])
+
+_XFP = lambda t: _re.sub(r"\bfile\b", "filepath", t)   # noqa: E731
+contract("ExpandingBloomFilter.__init__@path", contexts=["ExpandingBloomFilter"], properties=["C05", "C09"],
+         params={"est_elements": "opt[int]", "false_positive_rate": "opt[float]", "filepath": "key", "hash_function": "opt[hashfunc]"},
+         requires=[(n, _XFP(t)) for n, t in _C["ExpandingBloomFilter.__load@path"].requires] + [("exists_as_given", "file_exists(filepath)")],
+         modifies=["self"],
+         ensures=[(n, _XFP(t)) for n, t in _C["ExpandingBloomFilter.__load@path"].ensures]
+         + [("hash_function_kept_or_default", "eb_hf(self) == (hash_function if hash_function is not None else default_fnv_1a)")])
